@@ -271,6 +271,7 @@ func (h *hostileEnv) judge(r *core.R, what string) {
 	tr := h.truth()
 	core.Note("C13 %s %s", h.fmt, what)
 	before := scen.Snapshot(h.root)
+	verifyRefused := false
 	// Verify
 	if h.fmt == "par2" {
 		var vr par2.VerifyResult
@@ -291,6 +292,7 @@ func (h *hostileEnv) judge(r *core.R, what string) {
 			}
 		} else {
 			r.Count("verify_errors", 1)
+			verifyRefused = true
 		}
 	} else {
 		var vr par1.VerifyResult
@@ -311,10 +313,41 @@ func (h *hostileEnv) judge(r *core.R, what string) {
 			}
 		} else {
 			r.Count("verify_errors", 1)
+			verifyRefused = true
 		}
 	}
 	if d := scen.DiffSnap(before, scen.Snapshot(h.root)); len(d) > 0 {
 		r.Violate("verify-modified-directory", "%s: %v", what, d)
+	}
+	// Repair with the double check, on a copy of the directory (the plain
+	// Repair below gets the state itself).
+	// (when Verify refused the archive outright, only every eighth state is
+	// tried: Repair refuses those the same way)
+	if !verifyRefused || h.sub%8 == 0 {
+		cp := filepath.Join(h.root, "dc-copy")
+		os.RemoveAll(cp)
+		if copyTree(h.dir, cp) == nil {
+			cidx := filepath.Join(cp, filepath.Base(h.idx))
+			var derr error
+			var dpi *core.PanicInfo
+			if h.fmt == "par2" {
+				dpi = core.Protect(func() { _, derr = par2.Repair(cidx, par2.RepairOptions{NumGoroutines: 3, DoubleCheck: true}) })
+			} else {
+				dpi = core.Protect(func() { _, derr = par1.Repair(cidx, par1.RepairOptions{DoubleCheck: true}) })
+			}
+			if dpi != nil {
+				r.Violate(core.CrashSig(h.fmt+".Repair", dpi.Frame, dpi.Msg), "%s: Repair with double check panicked: %s\n%s", what, dpi.Msg, trunc2(dpi.Stack, 1200))
+			} else if derr == nil {
+				for rel, orig := range h.data {
+					b, err := os.ReadFile(filepath.Join(cp, rel))
+					if err != nil || string(b) != string(orig) {
+						r.Violate("repair-nil-but-files-differ", "%s: Repair with double check returned nil but %s is not the original", what, rel)
+					}
+				}
+			}
+			r.Count("double_check_repairs", 1)
+		}
+		os.RemoveAll(cp)
 	}
 	// Repair
 	var rerr error
